@@ -527,11 +527,16 @@ func extractCurrentTagName(line string, pos int) string {
 		return ""
 	}
 
+	// the name is the word the colon is attached to, as the parser reads it:
+	// in "lunch with bob project: zeta" the tag is "project"
 	lastComma := strings.LastIndex(beforeCursor[:lastColon], ",")
 	start := lastComma + 1
-	tagName := strings.TrimSpace(beforeCursor[start:lastColon])
+	segment := beforeCursor[start:lastColon]
+	if i := strings.LastIndexAny(segment, " \t"); i >= 0 {
+		segment = segment[i+1:]
+	}
 
-	return tagName
+	return segment
 }
 
 // generateDateCompletionItems creates date suggestions with today/yesterday/tomorrow at top.
@@ -866,9 +871,10 @@ func extractQueryText(content string, pos protocol.Position, ctxType CompletionC
 		return beforeCursor[payeeFragmentStart(beforeCursor):]
 
 	case ContextTagName:
-		// the tag being typed starts after the last "," or the ";"
-		start := strings.LastIndexAny(beforeCursor, ",;") + 1
-		return strings.TrimLeft(beforeCursor[start:], " \t")
+		// the tag being typed is the last word after the last "," or the ";":
+		// a name has no blanks, what stands before it is ordinary comment text
+		start := strings.LastIndexAny(beforeCursor, ",; \t") + 1
+		return beforeCursor[start:]
 
 	case ContextTagValue:
 		start := strings.LastIndex(beforeCursor, ":") + 1
